@@ -339,6 +339,23 @@ func ReplayMain(t *testing.T, path string) int {
 		fmt.Fprintln(os.Stderr, "replay: unknown property", f.Case.Prop)
 		return 2
 	}
+	if f.Race && !RaceEnabled {
+		// a finding of the race oracle replays in the -race build
+		viol, died, hung, _ := replayChild(path, true, 300*time.Second)
+		for _, v := range viol {
+			fmt.Printf("reproduced: %s\n", trunc(v.String(), 2000))
+		}
+		if len(viol) > 0 {
+			fmt.Printf("VIOLATION property=%s replay=%s\n", f.Case.Prop, path)
+			return 1
+		}
+		if died != "" || hung {
+			fmt.Println(died)
+			return 2
+		}
+		fmt.Println("replay: no violation reproduced (in the -race build)")
+		return 0
+	}
 	if err := CheckEncodableTable(); err != nil {
 		fmt.Fprintln(os.Stderr, "HARNESS-ERROR:", err)
 		return 2
